@@ -19,6 +19,8 @@ from common import (ToolError, log, workdir, seed, tlc_check, require_coverage, 
 HS = os.environ.get("VERIF_VHS_DIR") or os.path.join(ROOT, "harness-src")
 VHS = os.path.join(HS, "target", "debug", "vhs")
 
+# quick tier: only the pairs within -ASPAN..ASPAN are translated to the limits of the types
+ASPAN = {"quick": 4, "thorough": None}
 MACRO_TYPES = ["u8", "u16", "u32", "usize", "i8", "i16", "i32", "i64", "isize"]
 UNSIGNED = {"u8", "u16", "u32", "u64", "usize"}
 BITS = {"u8": 8, "i8": 8, "u16": 16, "i16": 16, "u32": 32, "i32": 32, "u64": 64, "i64": 64,
@@ -50,64 +52,76 @@ def _tlc_many(jobs, wd, par=6):
         return dict(ex.map(one, jobs))
 
 
-def n_files(maxlen, crlf):
-    """Number of files over the tokens x | LF (| CRLF) of at most maxlen bytes (closed form /
-    recurrence, used to certify that the enumeration was complete)."""
-    a = [1, 2 if maxlen >= 1 else 0]
-    for k in range(2, maxlen + 1):
-        a.append(2 * a[k - 1] + (a[k - 2] if crlf else 0))
-    return sum(a[:maxlen + 1])
+def n_files(maxlen, crlflen):
+    """Number of files enumerated by FileSplit/CsvSplit: over x | LF of at most maxlen bytes plus over
+    x | LF | CRLF of at most crlflen bytes (closed form / recurrence, used to certify that the
+    enumeration was complete)."""
+    def count(n, crlf):
+        a = [1, 2]
+        for k in range(2, n + 1):
+            a.append(2 * a[k - 1] + (a[k - 2] if crlf else 0))
+        return sum(a[:n + 1])
+    return count(maxlen, False) + count(crlflen, True) - count(crlflen, False)
+
+
+# spaces per tier: (max bytes of a file without CRLF, max bytes of a file with CRLF), range bounds
+SPACE = {"quick": {"file": (8, 6), "csv": (7, 5), "bounds": 8},
+         "thorough": {"file": (13, 11), "csv": (11, 9), "bounds": 12}}
 
 
 def models(V, wd, tier):
+    """Model checks and behaviour generation. The gen/ configurations carry the C15 invariants AND
+    EmitReplay (check + generation in one TLC run); the remaining RangeSplit configurations (limits
+    of the wide types, the open usize finding, regression documentation of the fixed findings) run
+    beside them - all of them in the thorough tier, the usize pair only in the quick tier."""
     q = tier == "quick"
     suf = "quick" if q else "thorough"
-    main = [("FileSplit", f"FileSplit_{suf}"), ("FileSplit", f"FileSplit_crlf_{suf}"),
-            ("CsvSplit", f"CsvSplit_{suf}"), ("CsvSplit", f"CsvSplit_crlf_{suf}")] + \
-           [("RangeSplit", f"RangeSplit_{x}") for x in ("narrow", "unarrow", "wide", "usize", "u64")]
+    gen = [("FileSplit", f"FileSplit_gen_{suf}", ["AppendX", "AppendLF", "AppendCRLF", "Split"]),
+           ("CsvSplit", f"CsvSplit_gen_{suf}", ["AppendX", "AppendLF", "AppendCRLF", "SplitWith"]),
+           ("RangeSplit", f"RangeSplit_gen_B_{suf}", ["Pick", "Split"]),
+           ("RangeSplit", f"RangeSplit_gen_A_{suf}", ["Pick", "Split"])]
+    main = [("RangeSplit", "RangeSplit_usize")]
+    finding = [("RangeSplit", "RangeSplit_finding_usize")]
     if not q:
+        main += [("RangeSplit", f"RangeSplit_{x}") for x in ("narrow", "unarrow", "wide", "u64")]
         main += [("RangeSplit", f"RangeSplit_{x}_thorough") for x in ("narrow", "unarrow", "wide", "usize", "u64")]
-    finding = [("RangeSplit", f"RangeSplit_finding_{x}") for x in
-               ("reversed", "reversed_u64", "nearmax", "usize")]
-    gen = [("FileSplit", f"FileSplit_gen_{suf}"), ("FileSplit", f"FileSplit_gen_crlf_{suf}"),
-           ("CsvSplit", f"CsvSplit_gen_{suf}"), ("CsvSplit", f"CsvSplit_gen_crlf_{suf}"),
-           ("RangeSplit", f"RangeSplit_gen_B_{suf}"), ("RangeSplit", f"RangeSplit_gen_A_{suf}")]
-    jobs = [(c, m, f"{SPEC}/mc/{c}.cfg", True) for m, c in main + finding] + \
-           [(c, m, f"{SPEC}/gen/{c}.cfg", False) for m, c in gen]
-    res = _tlc_many(jobs, wd, par=10 if q else 6)
-    for m, c in main:
+        finding += [("RangeSplit", f"RangeSplit_finding_{x}") for x in ("reversed", "reversed_u64", "nearmax")]
+    jobs = [(c, m, f"{SPEC}/gen/{c}.cfg", True) for m, c, _ in gen] + \
+           [(c, m, f"{SPEC}/mc/{c}.cfg", True) for m, c in main + finding]
+    res = _tlc_many(jobs, wd, par=6)
+    for m, c, acts in gen:
         r = res[c]
         if not r["ok"]:
             raise ToolError(f"model check {c}: invariant {r['invariant_violated']} fails on the MODEL; "
                             "reproduce on the code before blaming it (see DESIGN.md 2.6)")
-        if m == "RangeSplit":
-            require_coverage(r, ["Pick", "Split"], c)
-        else:
-            acts = ["AppendX", "AppendLF", "Split" if m == "FileSplit" else "SplitWith"]
-            if "crlf" in c:
-                acts.append("AppendCRLF")
-            require_coverage(r, acts, c)
+        require_coverage(r, acts, c)
         V.add_model(r, c)
-    # the carve-outs of the main RangeSplit configs (reversed ranges, chunks beyond the type's MAX,
-    # usize above i64::MAX) must not silently widen: each finding config must still fail
+    for m, c in main:
+        r = res[c]
+        if not r["ok"]:
+            raise ToolError(f"model check {c}: invariant {r['invariant_violated']} fails on the MODEL")
+        require_coverage(r, ["Pick", "Split"], c)
+        V.add_model(r, c)
+    # open finding F1-usize: the carve-out of RangeSplit_usize must not silently widen; fixed findings
+    # F1 / F1-nearmax: the old arithmetic must still show the counterexample (regression documentation)
     still = {c: res[c]["invariant_violated"] == "C15_Range" for _, c in finding}
     V.coverage["finding_configs_still_fail"] = still
     if not all(still.values()):
         raise ToolError(f"a *_finding config of RangeSplit no longer fails: {still}")
-    for _, c in gen:
-        if not res[c]["ok"]:
-            raise ToolError(f"behaviour generation {c} failed")
-    return {c: res[c]["replays"] for _, c in gen}, suf
+    # TLC prints the behaviours in a worker-dependent order: sort, so that case ids and the seeded
+    # job sample are the same in every run
+    return {c: sorted(res[c]["replays"], key=lambda b: json.dumps(b, sort_keys=True)) for _, c, _ in gen}, suf
 
 
 def apalache(V, wd, budget=420):
     """Thorough tier: Apalache (symbolic integers) checks the partition property of RangeSplit for
     the REAL limits of the 64-bit and 32-bit types, all bounds with at most 2^62 elements, 1..6 peers
-    (spec/apa/RangeSplitApa.tla, --length=0), and must find the reversed-range counterexample when the
-    carve-out is lifted.  Skipped with a note when it does not finish within the budget."""
+    (spec/apa/RangeSplitApa.tla, --length=0), reversed ranges included, and must still find the
+    counterexamples of the two fixed findings with the old arithmetic.  Skipped with a note when it
+    does not finish within the budget."""
     spec = os.path.join(SPEC, "apa", "RangeSplitApa.tla")
     runs = [(c, "Init", "NoError") for c in ("CInitI64", "CInitU64", "CInitUsize", "CInitI32", "CInitU32")]
-    runs.append(("CInitI64", "InitAll", "Error"))
+    runs += [("CInitI64Old", "Init", "Error"), ("CInitI32OldClamp", "Init", "Error")]
 
     def one(r):
         cinit, init, want = r
@@ -138,8 +152,7 @@ def text_cases(gens, suf):
     """One case per enumerated file (file source) and per file x header flag (csv source)."""
     cases, exp = [], {}
     seen = set()
-    for kind, names in (("file", (f"FileSplit_gen_{suf}", f"FileSplit_gen_crlf_{suf}")),
-                        ("csv", (f"CsvSplit_gen_{suf}", f"CsvSplit_gen_crlf_{suf}"))):
+    for kind, names in (("file", (f"FileSplit_gen_{suf}",)), ("csv", (f"CsvSplit_gen_{suf}",))):
         for name in names:
             for b in gens[name]:
                 key = (kind, tuple(b["bytes"]), b.get("header"))
@@ -173,7 +186,7 @@ def range_cases(gens, suf, tier, rng):
 
     small = []
     # translations to the type's limits: all pairs (thorough) / the pairs within -5..5 (quick)
-    aspan = 5 if tier == "quick" else span
+    aspan = ASPAN[suf] or span
     for b in genB:
         lo, hi = b["lo"], b["hi"]
         for ty in ALL_TYPES:
@@ -211,8 +224,8 @@ def range_cases(gens, suf, tier, rng):
     add("u8", {"b": "0", "o": 0}, {"b": "MAX", "o": 0}, "job", peers)
     add("u16", {"b": "0", "o": 0}, {"b": "0", "o": 1000}, "job", peers)
     rng.shuffle(small)
-    for ty, lo, hi, e in small[:150 if tier == "quick" else 1500]:
-        add(ty, lo, hi, "job", peers, e)
+    for ty, lo, hi, e in small[:60 if tier == "quick" else 1500]:
+        add(ty, lo, hi, "job", [1, 2, 3, 6] if tier == "quick" else peers, e)
     return cases, exp, n_direct
 
 
@@ -261,13 +274,6 @@ def run_vhs(cases, wd, nproc=None, timeout=1500):
 def C15(V, tier):
     wd = workdir("C15")
     rng = random.Random(seed())
-    # testing aid only (never set by ./check itself): treat the entries of a proposed-findings file
-    # as known, to see what a run looks like once they are listed in known_findings.json
-    extra = os.environ.get("VERIF_PROPOSED_FINDINGS")
-    if extra:
-        with open(extra) as f:
-            V.known = V.known + json.load(f).get("findings", [])
-        V.coverage["proposed_findings_file"] = extra
     bt = build_vhs()
     log(f"[C15] harness-src built in {bt:.1f}s")
     V.coverage["build_vhs_s"] = round(bt, 1)
@@ -311,7 +317,8 @@ def C15(V, tier):
         nruns += len(r["runs"])
         recs.append(r)
     files = []
-    nchunks = max(1, min(NPROC, (len(recs) + 99) // 100))   # one TLC process per core
+    # a TLC process judges ~1500 records in a few seconds, most of which is JVM start: few, large chunks
+    nchunks = max(1, min(NPROC, (len(recs) + 1499) // 1500))
     for i in range(nchunks):
         p = os.path.join(wd, f"sourcecheck_{i}.ndjson")
         with open(p, "w") as f:
@@ -336,17 +343,21 @@ def C15(V, tier):
     V.coverage["integer_types"] = ALL_TYPES
     # the finite spaces were enumerated completely iff TLC produced exactly the closed-form number
     # of files / bound pairs and every one of them was run and judged
-    L = {"quick": (10, 8), "thorough": (13, 11)}[suf]      # file source: max bytes (LF only, with CRLF)
-    LC = {"quick": (9, 7), "thorough": (11, 9)}[suf]      # csv source (x 2 header flags)
-    B = {"quick": 8, "thorough": 12}[suf]
-    want = {f"FileSplit_gen_{suf}": n_files(L[0], False), f"FileSplit_gen_crlf_{suf}": n_files(L[1], True),
-            f"CsvSplit_gen_{suf}": 2 * n_files(LC[0], False), f"CsvSplit_gen_crlf_{suf}": 2 * n_files(LC[1], True),
+    sp = SPACE[suf]
+    B = sp["bounds"]
+    want = {f"FileSplit_gen_{suf}": n_files(*sp["file"]), f"CsvSplit_gen_{suf}": 2 * n_files(*sp["csv"]),
             f"RangeSplit_gen_B_{suf}": (2 * B + 1) ** 2, f"RangeSplit_gen_A_{suf}": (B + 1) ** 2}
     got = {k: len(gens[k]) for k in want}
     V.coverage["enumerated"] = got
-    V.coverage["bounds"] = {"file_max_bytes": L, "csv_max_bytes": LC, "replicas": "1..6",
-                            "range_bounds": f"-{B}..{B}", "peers": "1..6 (+7,16,64 for the huge-range table)"}
     V.coverage["exhaustive"] = got == want and consumed == len(recs)
+    V.coverage["space"] = {
+        "file": f"every file over x|LF of <= {sp['file'][0]} bytes and over x|LF|CRLF of <= {sp['file'][1]} bytes, replicas 1..6",
+        "csv": f"every file over x|LF of <= {sp['csv'][0]} bytes and over x|LF|CRLF of <= {sp['csv'][1]} bytes, "
+               "with and without header, replicas 1..6",
+        "range": f"every pair of bounds in -{B}..{B} (0..{B} for unsigned types and u64), peers 1..6, all ten integer "
+                 f"types around 0; translated to every type's MIN and MAX for the pairs within "
+                 f"-{ASPAN[suf] or B}..{ASPAN[suf] or B}; a table of huge ranges with peers up to 64",
+    }
     if got != want:
         raise ToolError(f"incomplete enumeration: {got} != {want}")
 
